@@ -300,6 +300,17 @@ impl SemanticState {
 
         // Now that we've finished resolving all of our types, we should be able
         // to resolve our extern values.
+        #[cfg(pyxis_verif)]
+        for key in crate::verif::reorder(
+            crate::verif::Site::ExternValues,
+            self.modules.keys().cloned().collect(),
+            |k: &ItemPath| k.to_string(),
+        ) {
+            // Same call as the loop below, in scheduler order; that loop then finds
+            // everything resolved already (or is not reached because of the same error).
+            let module = self.modules.get_mut(&key).unwrap();
+            module.resolve_extern_values(&mut self.type_registry)?;
+        }
         for module in self.modules.values_mut() {
             module.resolve_extern_values(&mut self.type_registry)?;
         }
